@@ -215,17 +215,31 @@ def attr_types(mods, all_classes):
 TOP = "T"
 
 
+def _int_consts(mod):
+    """module-level names bound once to an integer, as folded by E0"""
+    try:
+        env = S.folded(mod.name).env
+    except Exception:
+        return {}
+    out = {}
+    for k, v in env.items():
+        if isinstance(v, int) and not isinstance(v, bool) and len(mod.assigns.get(k, [])) == 1:
+            out[k] = v
+    return out
+
+
 class Balance:
-    def __init__(self, attr, selfname):
+    def __init__(self, attr, selfname, consts=None):
         self.attr, self.selfname = attr, selfname
+        self.consts = consts or {}         # module-level integer constants (folded): `self.indent_level += _INDENT_STEP`
         self.problems = []
         self.absolute = []
 
     def delta_of(self, st):
         """(delta|None) if st is  self.attr += k / -= k ; ('abs', value) for plain assignment."""
         if isinstance(st, ast.AugAssign) and self._is_attr(st.target):
-            if isinstance(st.value, ast.Constant) and isinstance(st.value.value, int):
-                k = st.value.value
+            k = st.value.value if isinstance(st.value, ast.Constant) else (self.consts.get(st.value.id) if isinstance(st.value, ast.Name) else None)
+            if isinstance(k, int) and not isinstance(k, bool):
                 if isinstance(st.op, ast.Add):
                     return k
                 if isinstance(st.op, ast.Sub):
@@ -443,7 +457,7 @@ def check(ctx):
         if not m.args.args:
             continue
         for attr in sorted(balanced_attrs):
-            b = Balance(attr, m.args.args[0].arg)
+            b = Balance(attr, m.args.args[0].arg, _int_consts(gmod))
             ends = b.block(m.body, 0)
             touched = any(b.delta_of(n) is not None for n in ast.walk(m) if isinstance(n, ast.stmt))
             bad = sorted({e for e, _ in ends if e != 0})
